@@ -116,6 +116,13 @@ def goalF : Nat → Bool → List (Nat × Term) → P G
         | some (gs, ts) => some (Goal.conjDOfList [Goal.conjDOfList gs], ts)
         | none => none
       | none => none
+    else if t == "dfsc" then
+      -- `dfs { c1, c2, .. }`: `DFSConj::from_conjunctions` over the comma-separated clauses
+      match nat ts with
+      | some (k, ts) => match clausesF n true env k ts with
+        | some (cs, ts) => some (Goal.conjDOfList (cs.map Goal.conjDOfList), ts)
+        | none => none
+      | none => none
     else if t == "anyo" && !dfs then
       match goalF n false env ts with
       | some (g, ts) => some (.anyo (Goal.conjOfList [Goal.conjOfList [g]]), ts)
